@@ -78,7 +78,7 @@ func (m *M) ModeName(content string) string {
 }
 
 type chunkReader struct {
-	empty int // consecutive calls with an empty buffer
+	empty   int // consecutive calls with an empty buffer
 	chunks  [][]byte
 	i       int
 	calls   int
@@ -186,6 +186,23 @@ func (m *M) Whole(data []byte, cfg Config) (o *Out) {
 		m.whole(m, data, cfg, o)
 	}()
 	return o
+}
+
+// WholeSpare is Whole on a copy of data whose backing array continues with
+// spare (exact: no spare capacity at all). len(data) is unchanged: a front-end
+// that answers differently than for Whole looks at bytes it was not given.
+func (m *M) WholeSpare(data, spare []byte, cfg Config) *Out {
+	full := make([]byte, len(data)+len(spare))
+	copy(full, data)
+	copy(full[len(data):], spare)
+	return m.Whole(full[:len(data)], cfg)
+}
+
+// SpareFor is the content put behind an input for WholeSpare: the bytes that
+// would continue it most plausibly (comp, e.g. the rest of a literal and the
+// closers), then a closing quote, closers and an 'e' run as a default.
+func SpareFor(comp []byte) []byte {
+	return append(append([]byte{}, comp...), []byte("e\"]}e e e e e e e e e e e e e e e e")...)
 }
 
 // Bytewise splits data into one-byte chunks.
